@@ -323,15 +323,14 @@ func c18Cleanup(c *Ctx) *RuleResult {
 	// transactions' complete() releases the client
 	for _, name := range []string{"openOwnerTransaction.complete", "lockOwnerTransaction.complete"} {
 		u := p.Unit(nfsPkg, name)
-		g := NewFuncCFG(u.Info(), u.Decl.Body)
-		okR := g.EveryPathPasses(func(n ast.Node) bool {
+		okR := mustPass(p.UnitsIn(nfsPkg), func(x *FuncUnit, n ast.Node) bool {
 			call, ok := n.(*ast.CallExpr)
 			if !ok {
 				return false
 			}
 			sel, ok := ast.Unparen(call.Fun).(*ast.SelectorExpr)
 			return ok && sel.Sel.Name == "release" && strings.HasSuffix(exprStr(sel.X), ".confirmation")
-		})
+		})[u.Fn]
 		if okR {
 			r.ok(u.Name()+"|release", posOf(p, u.Decl), "the client held by startTransaction is released on every path")
 		} else {
